@@ -92,9 +92,12 @@ class RefADWIN:
                     break
                 self.state = "drift"
                 # drop the oldest bucket
+                # (rows emptied by a merge - max_buckets = 1 - hold nothing: the oldest bucket is in the last non-empty row)
+                while len(self.rows) > 1 and not self.rows[-1]:
+                    self.rows.pop()
                 top = len(self.rows) - 1
                 del self.rows[top][0]
-                if not self.rows[top] and top > 0:
+                while len(self.rows) > 1 and not self.rows[-1]:
                     self.rows.pop()
                 W = len(self.window())
                 self.recs = [self.total - W, self.total - 1]
@@ -171,5 +174,21 @@ def run(tier, seed, repo, focus=None):
                     res.count(key=repr(scn), nontrivial=True, n=scn["n"], check="%s vs raw-bucket reference" % name)
                     if msg:
                         res.violation("%s: %s" % (name, msg), REPLAY % dict(verif=VERIF, scn=scn), known)
+    # randomly drawn constructor parameters (documented domains): layouts the fixed grid does not contain
+    import numpy as _np
+    prng = _np.random.RandomState(seed + 4242)
+    for r in range(8 if quick else 80):
+        params = dict(delta=float(prng.choice([0.002, 0.05, 0.2, 0.5, 0.9])), max_buckets=int(prng.randint(1, 10)),
+                      new_sample_thresh=int(prng.randint(1, 20)), window_size_thresh=int(prng.randint(1, 14)),
+                      subwindow_size_thresh=int(prng.randint(1, 7)), conservative_bound=bool(prng.randint(0, 2)))
+        for name, kind in (("ADWIN", "real"), ("ADWINAccuracy", "int")):
+            scn = {"det": name, "params": params, "seed": seed + r, "n": 200, "kind": kind}
+            try:
+                msg = check(scn)
+            except Exception as e:
+                msg = "%s: %s" % (type(e).__name__, e)
+            res.count(key=repr(scn), nontrivial=True, n=scn["n"], check="%s vs raw-bucket reference (random parameters)" % name)
+            if msg:
+                res.violation("%s: %s" % (name, msg), REPLAY % dict(verif=VERIF, scn=scn), known)
     res.sample({"check": "ADWIN vs raw-bucket reference", "scenario": {"params": grids[0], "n": 160, "kind": "real"}})
     return res.finish()
